@@ -3,6 +3,7 @@
   `Gen.defaultMaxHandles` / `Gen.evictDivisor` are read from filehandle.go on every run.
 -/
 import Absnfs.HandlesInv
+import Absnfs.ServerHandles
 import Gen.Facts
 open Absnfs Absnfs.Handles
 
@@ -108,5 +109,85 @@ theorem no_eviction_when_room (s : St) (p : Bytes) (hp : p ≠ [])
 example : Inv' (run' (init 2) [.alloc [97], .alloc [98], .alloc [99], .release 2, .alloc [100]]) :=
   reachable_inv 2 _ (by intro op hop; simp at hop; rcases hop with rfl | rfl | rfl | rfl | rfl <;> simp [Op.WF])
 example : (run' (init 2) [.alloc [97], .alloc [98], .alloc [99]]).live.length = 2 := by decide
+
+/-! ### handler level: the table inside the server, after any history of requests
+
+`Server.CInv` (the invariant every request keeps, `Props.C02.handle_cinv`) carries the table invariant, so the three
+clauses of the property are statements about replies. `s0` is any state satisfying the invariant (a new server does:
+`Props.C02.new_server_cinv`), `rs` any list of requests. -/
+
+section handler
+open Absnfs.Server
+
+/-- Clause 1, LOOKUP / CREATE / MKDIR / SYMLINK / MNT: the handle in an NFS3_OK reply resolves, in the state the
+    reply leaves behind (what the immediately following request sees), to directory-path/name (MNT: the cleaned
+    path), and the node stored under it carries the attributes the reply reported. -/
+theorem lookup_handle_resolves (s0 : Server.St) (rs : List Req) (h0 : CInv s0) (s' : Server.St) (c : Ctx) (args : Bytes) (fh : Nat)
+    (fa : Rfc.Fattr) (da : Option Rfc.Fattr)
+    (h : procLookup (runReqs s0 rs) c args = (s', .res ⟨0, .lookupOk fh (some fa) da⟩)) :
+    ∃ hd r1 name r2 n a, decFh' (runReqs s0 rs) args = some (hd, r1) ∧ decStr (runReqs s0 rs) r1 = some (name, r2) ∧
+      nodeOf (runReqs s0 rs) hd = some n ∧ nodeOf s' fh = some { path := joinName n.path name, attrs := a } ∧ fa = toFattr a :=
+  procLookup_handle _ s' c args fh fa da (runReqs_cinv s0 rs h0) h
+
+theorem create_handle_resolves (s0 : Server.St) (rs : List Req) (h0 : CInv s0) (s' : Server.St) (c : Ctx) (args : Bytes) (fh : Nat)
+    (fa : Rfc.Fattr) (w : Rfc.Wcc) (h : procCreate (runReqs s0 rs) c args = (s', CreatedOk fh fa w)) :
+    ∃ hd r1 name r2 n a, decFh' (runReqs s0 rs) args = some (hd, r1) ∧ decStr (runReqs s0 rs) r1 = some (name, r2) ∧
+      nodeOf (runReqs s0 rs) hd = some n ∧ nodeOf s' fh = some { path := joinName n.path name, attrs := a } ∧ fa = toFattr a ∧
+      MatchesLstat s'.fs (joinName n.path name) a :=
+  procCreate_handle _ s' c args fh fa w (runReqs_cinv s0 rs h0) h
+
+theorem mkdir_handle_resolves (s0 : Server.St) (rs : List Req) (h0 : CInv s0) (s' : Server.St) (c : Ctx) (args : Bytes) (fh : Nat)
+    (fa : Rfc.Fattr) (w : Rfc.Wcc) (h : procMkdir (runReqs s0 rs) c args = (s', CreatedOk fh fa w)) :
+    ∃ hd r1 name r2 n a, decFh' (runReqs s0 rs) args = some (hd, r1) ∧ decStr (runReqs s0 rs) r1 = some (name, r2) ∧
+      nodeOf (runReqs s0 rs) hd = some n ∧ nodeOf s' fh = some { path := joinName n.path name, attrs := a } ∧ fa = toFattr a ∧
+      MatchesLstat s'.fs (joinName n.path name) a :=
+  procMkdir_handle _ s' c args fh fa w (runReqs_cinv s0 rs h0) h
+
+theorem symlink_handle_resolves (s0 : Server.St) (rs : List Req) (h0 : CInv s0) (s' : Server.St) (c : Ctx) (args : Bytes) (fh : Nat)
+    (fa : Rfc.Fattr) (w : Rfc.Wcc) (h : procSymlink (runReqs s0 rs) c args = (s', CreatedOk fh fa w)) :
+    ∃ hd r1 name r2 n a, decFh' (runReqs s0 rs) args = some (hd, r1) ∧ decStr (runReqs s0 rs) r1 = some (name, r2) ∧
+      nodeOf (runReqs s0 rs) hd = some n ∧ nodeOf s' fh = some { path := joinName n.path name, attrs := a } ∧ fa = toFattr a ∧
+      MatchesLstat s'.fs (joinName n.path name) a :=
+  procSymlink_handle _ s' c args fh fa w (runReqs_cinv s0 rs h0) h
+
+theorem mnt_handle_resolves (s0 : Server.St) (rs : List Req) (h0 : CInv s0) (s' : Server.St) (c : Ctx) (args fhb : Bytes)
+    (auth : List Nat) (h : procMnt (runReqs s0 rs) c args = (s', .res ⟨0, .mntOk fhb auth⟩)) :
+    ∃ raw r fh a, decStr (runReqs s0 rs) args = some (raw, r) ∧ fhb = encU64 fh ∧
+      nodeOf s' fh = some { path := cleanAbs raw, attrs := a } :=
+  procMnt_handle _ s' c args fhb auth (runReqs_cinv s0 rs h0) h
+
+/-- Clause 1, READDIRPLUS — PARTIAL: pages whose listing fits in the table (no eviction inside the batch). Every
+    handle of an NFS3_OK page resolves, after the whole page was built, to an object with the entry's name.
+    The full statement is false on a full table: `readdirplus_counterexample`, known finding
+    C05/readdirplus-evicts-own-handles. -/
+theorem readdirplus_handles_resolve_partial (s0 : Server.St) (rs : List Req) (h0 : CInv s0) (s' : Server.St) (c : Ctx) (args : Bytes)
+    (a : Option Rfc.Fattr) (verf : Bytes) (ents : List Rfc.DirEntPlus) (eof : Bool)
+    (hroom : ∀ hd r1 n nodes, decFh' (runReqs s0 rs) args = some (hd, r1) → nodeOf (runReqs s0 rs) hd = some n →
+      (readDir (runReqs s0 rs) c.now n).2 = .ok nodes →
+      (runReqs s0 rs).hs.live.length + nodes.length ≤
+        effMax (runReqs s0 rs).cfg.defaultMaxHandles (runReqs s0 rs).hs.maxRaw)
+    (h : procReaddirplus (runReqs s0 rs) c args = (s', .res ⟨0, .readdirplusOk a verf ents eof⟩)) :
+    ∀ e ∈ ents, ∃ fh p at', e.fh = some fh ∧ e.name = baseName p ∧ nodeOf s' fh = some { path := p, attrs := at' } :=
+  procReaddirplus_handles _ s' c args a verf ents eof (runReqs_cinv s0 rs h0) hroom h
+
+/-- Clause 2: while a handle for dir-path/name is live, a LOOKUP of that name returns the same handle value;
+    and two live handles never name the same path. -/
+theorem lookup_reissues_same_handle (s0 : Server.St) (rs : List Req) (h0 : CInv s0) (s' : Server.St) (c : Ctx) (args : Bytes) (fh : Nat)
+    (fa da : Option Rfc.Fattr) (h : procLookup (runReqs s0 rs) c args = (s', .res ⟨0, .lookupOk fh fa da⟩))
+    (hd : Nat) (r1 name r2 : Bytes) (n : Node) (hfh : decFh' (runReqs s0 rs) args = some (hd, r1))
+    (hname : decStr (runReqs s0 rs) r1 = some (name, r2)) (hn : nodeOf (runReqs s0 rs) hd = some n)
+    (fh0 : Nat) (n0 : Node) (hlive : nodeOf (runReqs s0 rs) fh0 = some n0) (hpath : n0.path = joinName n.path name) : fh = fh0 :=
+  procLookup_same_handle _ s' c args fh fa da (runReqs_cinv s0 rs h0) h hd r1 name r2 n hfh hname hn fh0 n0 hlive hpath
+
+theorem one_live_handle_per_path (s0 : Server.St) (rs : List Req) (h0 : CInv s0) (h1 h2 : Nat) (n1 n2 : Node)
+    (a : nodeOf (runReqs s0 rs) h1 = some n1) (b : nodeOf (runReqs s0 rs) h2 = some n2) (hp : n1.path = n2.path) : h1 = h2 :=
+  table_injective _ (runReqs_cinv s0 rs h0) h1 h2 n1 n2 a b hp
+
+/-- Clause 3: after any history of requests the number of live handles is within the effective maximum -/
+theorem server_table_bounded (s0 : Server.St) (rs : List Req) (h0 : CInv s0) :
+    (runReqs s0 rs).hs.live.length ≤ effMax (runReqs s0 rs).cfg.defaultMaxHandles (runReqs s0 rs).hs.maxRaw :=
+  table_bounded _ (runReqs_cinv s0 rs h0)
+
+end handler
 
 end Props.C05
